@@ -235,7 +235,8 @@ SeqDots(np, P, r, d) ==
     ELSE LET src == r.old \o Dots[d]
              tgt == IF r.newnone THEN "" ELSE r.new \o Dots[d]
          IN IF src \in DOMAIN np /\ src # tgt
-            THEN LET np1 == IF tgt # "" THEN SetKeys(np, {tgt}, P[src]) ELSE np
+            THEN LET v == IF src \in DOMAIN P THEN P[src] ELSE [t |-> "error", v |-> "KeyError"]
+                     np1 == IF tgt # "" THEN SetKeys(np, {tgt}, v) ELSE np
                  IN SeqDots(RestrictTo(np1, DOMAIN np1 \ {src}), P, r, d + 1)
             ELSE SeqDots(np, P, r, d + 1)
 RECURSIVE SeqRows(_, _, _, _)
